@@ -35,7 +35,8 @@ def required(tier):
     b = {'source:setigen': 30, 'source:foreign': 30, 'bits:8': 30, 'bits:4': 20, 'npol:1': 20, 'npol:2': 20, 'array': 10,
          'directio:on': 20, 'directio:off': 20, 'digitize:on': 30, 'digitize:off': 20, 'multi-file-input': 20, 'length:omitted': 10,
          'length:shorter': 10, 'length:longer': 10, 'aligned-header': 3, 'subblocks>=2': 40,
-         'second-recording-flipped-digitize': 30, 'lazy-unit-noise-estimate': 40, 'input:blank-block-or-dead-polarisation': 8}
+         'second-recording-flipped-digitize': 30, 'lazy-unit-noise-estimate': 40, 'input:blank-block-or-dead-polarisation': 8,
+         'block>10000-samples-per-stream': 15}
     return {'buckets': b, 'counters': {'decode_blocks_compared': 200, 'gain_calls_observed': 400, 'samples_compared': 50000},
             'checks': 1000, 'nontrivial': 60}
 
@@ -52,6 +53,13 @@ def gen_cases(seed, tier):
         cfg['nchan'] = int(rng.integers(1, min(cfg['P'] // 2, 5) + 1))
         cfg['start_chan'] = int(rng.integers(0, cfg['P'] // 2 - cfg['nchan'] + 1))
         cfg['digitize'] = bool(common.stratum(i, 1, 2))
+        if common.stratum(i, 7, 8) == 0:
+            # blocks holding more samples per antenna and polarisation than any "first N samples" shortcut (N = 10000) would read
+            cfg['P'] = int(common.pick(rng, [8, 16]))
+            cfg['nchan'] = int(min(cfg['P'] // 2, 4))
+            cfg['start_chan'] = int(rng.integers(0, cfg['P'] // 2 - cfg['nchan'] + 1))
+            cfg['mult'] = int(-(-int(rng.integers(10500, 14000)) // (cfg['nchan'] * cfg['M'])))
+            cfg['nblocks'] = int(rng.integers(1, 3))
         cfg['delays'] = [0] * cfg['nants'] if cfg['nants'] > 1 else None
         length = common.stratum(i, 2, ['omitted', 'shorter', 'equal', 'longer'])
         cases.append(dict(cfg=cfg, source=common.stratum(i, 3, SOURCES), directio=int(common.stratum(i, 4, 2)), align=bool(common.stratum(i, 5, 7) == 0),
@@ -85,8 +93,9 @@ def make_input(stg, c, cfg, d, R):
         blocks = []
         for _ in range(min(cfg['bpf'], cfg['nblocks'] - fi * cfg['bpf'])):
             scale = float(rng.uniform(0.15, 0.4)) * lim
-            re = np.clip(np.rint(rng.normal(0.3, scale, size=(obsn, sz['spb'], cfg['npol']))), -lim, lim - 1)
-            im = np.clip(np.rint(rng.normal(-0.2, scale, size=(obsn, sz['spb'], cfg['npol']))), -lim, lim - 1)
+            shape_ = rng.uniform(0.25, 1.0, size=(obsn, 1, 1))               # band-pass shape: channels differ in power
+            re = np.clip(np.rint(rng.normal(0.3, scale, size=(obsn, sz['spb'], cfg['npol'])) * shape_), -lim, lim - 1)
+            im = np.clip(np.rint(rng.normal(-0.2, scale, size=(obsn, sz['spb'], cfg['npol'])) * shape_), -lim, lim - 1)
             if c['_idx'] % 6 == 1 and b >= 1:
                 # a dropped block: zero-filled (zero spread), after a normal one
                 if (c['_idx'] // 6) % 2:
@@ -132,6 +141,8 @@ def _run(stg, c, cfg, d, R):
     R.bucket('directio:on' if c['directio'] else 'directio:off')
     R.bucket('digitize:on' if cfg['digitize'] else 'digitize:off')
     R.bucket('length:' + c['length'])
+    if cfg['nchan'] * sz['spb'] > 10000:
+        R.bucket('block>10000-samples-per-stream')
     if cfg['nants'] > 1:
         R.bucket('array')
     stem_in = make_input(stg, c, cfg, d, R)
